@@ -80,7 +80,7 @@ def main():
         try:
             for c in checks:
                 t = time.time()
-                r = sh(f"cd /verif && ./check {c}")
+                r = sh(f"cd /verif && VERIF_EVIDENCE_DIR=/verif/target/campaign-evidence-mut ./check {c}")
                 lines = r.stdout.splitlines()
                 viol = [l for l in lines if l.startswith("VIOLATION")]
                 what = [l.strip()[:300] for l in lines if l.strip().startswith("what:")][:2]
